@@ -392,6 +392,12 @@ def main(argv=None):
     except HarnessError as e:
         ctx.close()
         sys.stderr.write("HARNESS ERROR in %s:\n%s\n" % (pid, e))
+        if ctx.viol:
+            # vacuity guards and cross-checks of the harness are calibrated on
+            # a tree where the property holds; when violations were already
+            # recorded they are what has to be reported
+            ctx.cap("run ended early by a harness guard after violations had been recorded: %s" % str(e)[:300])
+            return finish(ctx, mod)
         return 2
     except BaseException:
         try:
